@@ -15,7 +15,7 @@ use serde::{Deserialize, Serialize};
 use serde_json::json;
 use std::sync::{Arc, Mutex, OnceLock};
 
-pub const RULE: &str = "(position with <= 64 legal moves: few-piece endgames, cage/pin themes, small placements, reachable walks; depth 2..4 (4 only for <= 4 men, 3 for <= 8 men); 0..3 prior searches run sequentially in a 1-thread pool to fix the initial cache contents) x (rayon pool of 2/3/4/16/64 threads uncontrolled; pool of 64 threads under the controlled scheduler with a generated strategy: in-order, permuted run-to-completion, PCT priorities with change points, round-robin quantum, random walk, explicit single preemptions of a run-to-completion order; when a run shows a cache entry that was stored and later replaced by a different value, further single-preemption schedules are aimed at those store steps - the observation only directs the search, the verdict is always the comparison below). The scheduler (a SearchObserver installed through the cfg(chess_verif) hooks) parks every root-move task at TaskBegin, then lets exactly one task run at a time and hands over only at shared-cache reads / writes and task ends, so the interleaving of cache accesses is a generated input. Oracle: (move tuple, last_score) of every run == the 1-thread in-order run on a freshly prepared identical context; a panic under any schedule is a violation; a stall is reported as inconclusive (exit 2). Non-trivial = the controlled run switched tasks at a cache access at least once and saw at least one cache hit on an entry written by another task; distinct = (position, prior, strategy) hash.";
+pub const RULE: &str = "(position with <= 64 legal moves: few-piece endgames, cage/pin themes, small placements, reachable walks; depth 2..4 (4 only for <= 4 men, 3 for <= 8 men); 0..3 prior searches run sequentially in a 1-thread pool to fix the initial cache contents) x (rayon pool of 2/3/4/16/64 threads uncontrolled; pool of 64 threads under the controlled scheduler with a generated strategy: in-order, permuted run-to-completion, PCT priorities with change points, round-robin quantum, random walk, explicit single preemptions of a run-to-completion order; when a run shows a cache entry that was stored and later replaced by a different value, further single-preemption schedules are aimed at those store steps - the observation only directs the search, the verdict is always the comparison below). The scheduler (a SearchObserver installed through the cfg(chess_verif) hooks) parks every root-move task at TaskBegin, then lets exactly one task run at a time and hands over only at shared-cache reads / writes and task ends, so the interleaving of cache accesses is a generated input. Oracle: (move tuple, last_score) of every run == the 1-thread in-order run on a freshly prepared identical context; a panic under any schedule is a violation; if the tasks do not all reach the barrier in time the scheduler releases them (run counted as given up, result still compared); a hang is caught by the watchdog (exit 2). Non-trivial = the controlled run switched tasks at a cache access at least once and saw at least one cache hit on an entry written by another task; distinct = (position, prior, strategy) hash.";
 
 #[derive(Clone, Debug, Serialize, Deserialize)]
 pub struct SchedCase {
@@ -231,8 +231,11 @@ impl Prop for C09Schedules {
             drop(_guard);
             st.count("controlled_runs", 1);
             if log.stalled {
-                eprintln!("INCONCLUSIVE: controlled run stalled ({} tasks, strategy {:?})", n_moves, strat);
-                std::process::exit(2);
+                // not every task got its own worker in time (machine overloaded): the scheduler
+                // released all tasks and the run finished uncontrolled; its result must still
+                // equal the baseline, it just does not count as a controlled schedule
+                st.label("scheduler-gave-up-control");
+                st.count("controlled_runs_given_up", 1);
             }
             // feedback: a store that was later replaced by a different value marks a window in
             // which another task could read a provisional value; preempt the writer right there
